@@ -31,7 +31,7 @@ ASSUMPTIONS = ["the stand-in cipher replaces real PKCS7 (prescribed by the prope
 REACH = [("yamlpath/commands/eyaml_rotate_keys.py", "main,validateargs", "eyaml_rotate_keys.main"),
          ("yamlpath/eyaml/eyamlprocessor.py", "_find_eyaml_paths,find_eyaml_paths,decrypt_eyaml,encrypt_eyaml,set_eyaml_value,is_eyaml_value", "EYAMLProcessor")]
 SIZES = {"quick": 800, "thorough": 10000}
-REQUIRED_COUNTERS = ["rotations", "secrets_checked", "anchored_secret_docs", "folded_secrets", "no_secret_files", "lookalikes_checked", "backup_runs",
+REQUIRED_COUNTERS = ["container_anchors_checked", "docs_with_secret_in_anchored_list_element", "folded_anchored_secrets", "rotations", "secrets_checked", "anchored_secret_docs", "folded_secrets", "no_secret_files", "lookalikes_checked", "backup_runs",
                      "multi_file_runs", "secrets_with_cr_lf_tab", "secrets_with_split_marker", "dotted_secret_keys", "docs_with_secret_in_merge_source"]
 FAKE = os.path.join(VERIF_ROOT, "tools", "fake-eyaml")
 PLAIN = ["s3cret", "p@ss w0rd", "x", "multi word secret value", "0123456789" * 9, "a:b", "tr=ue",
@@ -76,7 +76,7 @@ class Gen:
         self.leaves = []          # (kind, plaintext) in document order of *definition sites*
         self.anchor_n = 0
         self.anchors = []         # (name, plaintext)
-        self.n_secret = self.n_look = self.n_folded = self.n_ctl = self.n_marker_split = self.n_dotted = self.n_merge = 0
+        self.n_secret = self.n_look = self.n_folded = self.n_ctl = self.n_marker_split = self.n_dotted = self.n_merge = self.n_folded_anchored = self.n_tmpl = 0
 
     def leaf(self, indent, prefix, force=None):
         r = self.r
@@ -91,7 +91,7 @@ class Gen:
             ct = enc("old", pt)
             if any(c in pt for c in "\r\n\t"):
                 self.n_ctl += 1
-            style = r.choice(["plain", "plain", "dq", "folded", "spaced", "anchor", "spaced-in-marker", "folded-in-marker"])
+            style = r.choice(["plain", "plain", "dq", "folded", "spaced", "anchor", "spaced-in-marker", "folded-in-marker", "folded-anchor"])
             self.n_secret += 1
             if style == "plain":
                 self.lines.append("%s%s %s" % (pad, prefix, ct))
@@ -105,9 +105,17 @@ class Gen:
                 k = r.choice([1, 2, 3])
                 self.n_marker_split += 1
                 self.lines.append('%s%s "%s"' % (pad, prefix, ct[:k] + " " + ct[k:]))
-            elif style in ("folded", "folded-in-marker"):
+            elif style in ("folded", "folded-in-marker", "folded-anchor"):
                 self.n_folded += 1
                 first = 24
+                if style == "folded-anchor":
+                    # an anchored folded secret (an alias to it may or may not follow)
+                    self.anchor_n += 1
+                    name = "S%d" % self.anchor_n
+                    if r.random() < 0.5:
+                        self.anchors.append((name, pt))
+                    prefix = "%s &%s" % (prefix, name)
+                    self.n_folded_anchored += 1
                 if style == "folded-in-marker":
                     first = r.choice([1, 2, 3])      # the line break falls inside the marker
                     self.n_marker_split += 1
@@ -178,6 +186,22 @@ class Gen:
             self.lines.append("  - <<: *MB")
             self.lines.append("    n: 1")
             self.leaves.append(("plain", "1"))
+        if self.r.random() < 0.15:
+            # the "list of templates merged elsewhere" layout: an anchored mapping DEFINED as a list element holds a
+            # secret; so does an anchored sequence defined as a list element
+            self.n_tmpl += 1
+            self.lines.append("templates:")
+            self.lines.append("  - &T1")
+            self.leaf(2, "host:", force="plain")
+            self.leaf(2, "password:", force="secret")
+            # (an anchored sequence nothing refers to: rarely - an ALIASED container holding a secret is not generated,
+            # the tool finds that secret once per reference and ends with a non-zero status, which the property excludes)
+            self.lines.append("  - &T2" if self.r.random() < 0.3 else "  -")
+            self.leaf(2, "-", force="secret")
+            self.leaf(2, "-")
+            self.lines.append("tsvc:")
+            self.lines.append("  <<: *T1")
+            self.leaf(1, "port:", force="plain")
         self.node(0, 0)
         return "\n".join(self.lines) + "\n"
 
@@ -346,6 +370,34 @@ def check_file(ctx, case, fl, r, backup):
     if keys_only(before_data) != keys_only(after):
         ctx.violation("keys-or-order-changed", {"case": case, "summary": "structure differs"})
         return None
+    # anchors of containers (mappings / sequences), by location; how many places refer to each container
+    def container_anchors(data):
+        out, refs = {}, {}
+
+        def walk(n, loc):
+            if isinstance(n, (dict, list)):
+                refs[id(n)] = refs.get(id(n), 0) + 1
+                if refs[id(n)] > 1:
+                    return
+                out[loc] = (yp.anchor_of(n), id(n))
+                for _i, m in (getattr(n, "merge", None) or []):
+                    walk(m, loc + ("<<",))
+                for i, v in enumerate([v for _k, v in yp.own_items(n)] if isinstance(n, dict) else n):
+                    walk(v, loc + (i,))
+        walk(data, ())
+        return {loc: (a, refs[i]) for loc, (a, i) in out.items()}
+    ca0, ca1 = container_anchors(before_data), container_anchors(after)
+    for loc, (a0, nrefs) in ca0.items():
+        a1 = ca1.get(loc, (None, 0))[0]
+        if a0 != a1:
+            ctx.counters["container_anchor_differences"] = ctx.counters.get("container_anchor_differences", 0) + 1
+            if a1 is None and nrefs == 1:
+                # the anchor of a container that no alias refers to is not written back
+                ctx.violation("container-anchor-lost/never-aliased", {"case": case, "summary": "at %r: &%s is gone from the rotated file" % (loc, a0)})
+            else:
+                ctx.violation("container-anchor-changed", {"case": case, "summary": "at %r: %r -> %r (%d references)" % (loc, a0, a1, nrefs)})
+                return None
+    ctx.counters["container_anchors_checked"] = ctx.counters.get("container_anchors_checked", 0) + len([1 for a, _ in ca0.values() if a])
     # shared secrets stay shared
     ids1 = {}
     for (loc, n0), (_, n1) in zip(leaves0, leaves1):
@@ -357,6 +409,10 @@ def check_file(ctx, case, fl, r, backup):
         ctx.counters["anchored_secret_docs"] = ctx.counters.get("anchored_secret_docs", 0) + 1
     if g.n_folded:
         ctx.counters["folded_secrets"] = ctx.counters.get("folded_secrets", 0) + g.n_folded
+    if g.n_tmpl:
+        ctx.counters["docs_with_secret_in_anchored_list_element"] = ctx.counters.get("docs_with_secret_in_anchored_list_element", 0) + 1
+    if g.n_folded_anchored:
+        ctx.counters["folded_anchored_secrets"] = ctx.counters.get("folded_anchored_secrets", 0) + g.n_folded_anchored
     if g.n_merge:
         ctx.counters["docs_with_secret_in_merge_source"] = ctx.counters.get("docs_with_secret_in_merge_source", 0) + 1
     if g.n_dotted:
